@@ -20,7 +20,7 @@ import (
 	"github.com/kercylan98/vivid/internal/verif/vsys"
 )
 
-const addrA, addrB = "127.0.0.1:1001", "127.0.0.1:1002"
+const addrA, addrB, addrC = "127.0.0.1:1001", "127.0.0.1:1002", "127.0.0.1:1003"
 
 type params struct {
 	kind   string // around-undecodable (a message the receiving side cannot decode in the middle of a burst of n valid ones) | receiver-replaced (the receiving actor got mail, was killed, a new actor took its name; then a burst) | at-limit (one message whose encoded frame body is exactly size bytes BELOW the 4 MiB frame limit: size 0..5) | after-rejected (a message rejected by its writer after the writer grew by 70 KB, then n valid ones) | concurrent-asks (two outside goroutines Ask through the system at the same moment; with the happens-before race detector) | bytes-burst (messages with a raw []byte payload, kept by the receiver and compared after the whole burst) | burst | two-senders | first-contact | both-ways | ask | idle-gap | idle-gap-noretry (reconnect limit 0)
@@ -196,7 +196,20 @@ func scenario(p params, bounds []int) *vexp.Scenario {
 				}})
 			}
 			mkSender(wa, "s1", echoB)
-			mkSender(wa, "s2", echoB)
+			var wc *vsys.World
+			var atC []got
+			if p.kind == "two-peers" {
+				// a third system: s2 sends to it while s1 sends to B (two remote mailboxes of A, two connections, nothing shared
+				// between the two streams but A's process-wide pools)
+				wc = vsys.NewWorld(x, append([]vivid.ActorSystemOption{vivid.WithActorSystemRemoting(addrC), vivid.WithActorSystemDefaultAskTimeout(30 * time.Second)}, ropts...)...)
+				wc.Quiet = true
+				wc.Start()
+				wc.SpawnRoot(&vsys.Script{Name: "echo", OnOther: recv(&atC)})
+				echoC, _ := wa.Sys.CreateRef(addrC, "/echo")
+				mkSender(wa, "s2", echoC)
+			} else {
+				mkSender(wa, "s2", echoB)
+			}
 			mkSender(wb, "t1", echoA)
 			vrt.QuiesceNoTimers()
 			switch p.kind {
@@ -241,7 +254,7 @@ func scenario(p params, bounds []int) *vexp.Scenario {
 				vrt.Quiesce()
 				vrt.SetHorizon(0)
 				stall = false
-			case "two-senders", "first-contact":
+			case "two-senders", "first-contact", "two-peers":
 				wa.Sys.Tell(wa.Ref("/s1"), vsys.Msg{ID: "go"})
 				wa.Sys.Tell(wa.Ref("/s2"), vsys.Msg{ID: "go"})
 			case "both-ways":
@@ -287,6 +300,15 @@ func scenario(p params, bounds []int) *vexp.Scenario {
 						x.Fail("sender-designates-origin", "%s received %s with sender %q, the original sender is %q", where, g.id, g.sender, want)
 					}
 				}
+				for _, g := range list {
+					label := strings.TrimPrefix(g.id, "ask-")
+					if i := strings.IndexByte(label, '.'); i > 0 {
+						label = label[:i]
+					}
+					if _, ok := senders[label]; !ok && !strings.HasPrefix(label, "o") {
+						x.Fail("delivered-to-addressee-only", "%s received %s, which was addressed to an actor of another system", where, g.id)
+					}
+				}
 				for label := range senders {
 					ids := sent[label]
 					for i, id := range ids {
@@ -313,7 +335,12 @@ func scenario(p params, bounds []int) *vexp.Scenario {
 					x.Fail("delivered-intact", "the payload of %s, inspected after the burst, is no longer what was sent: %d bytes starting % x, expected %d bytes of %02x", bm.ID, len(bm.B), head, p.size, byte(k))
 				}
 			}
-			check("B:/echo", atB, map[string]string{"s1": addrA + "/s1", "s2": addrA + "/s2"})
+			if p.kind == "two-peers" {
+				check("B:/echo", atB, map[string]string{"s1": addrA + "/s1"})
+				check("C:/echo", atC, map[string]string{"s2": addrA + "/s2"})
+			} else {
+				check("B:/echo", atB, map[string]string{"s1": addrA + "/s1", "s2": addrA + "/s2"})
+			}
 			check("A:/echo", atA, map[string]string{"t1": addrB + "/t1"})
 			if p.kind == "concurrent-asks" {
 				if len(replies) != 2*p.n {
@@ -356,6 +383,9 @@ func scenario(p params, bounds []int) *vexp.Scenario {
 			vrt.Freeze() // the oracle has been evaluated: tear-down schedules are not explored
 			wa.Sys.Stop()
 			wb.Sys.Stop()
+			if wc != nil {
+				wc.Sys.Stop()
+			}
 			vrt.Quiesce()
 		},
 	}
@@ -398,6 +428,9 @@ func build(tier string) []*vexp.Scenario {
 			out = append(out, scenario(params{"rejected-amid", n, 4000, "all"}, b1))
 			out = append(out, scenario(params{"rejected-in-flight", n, 10, "all"}, b1))
 		}
+	}
+	for _, size := range []int{10, 200} {
+		out = append(out, scenario(params{"two-peers", 2, size, "all"}, b1))
 	}
 	out = append(out, scenario(params{"concurrent-asks", 1, 10, "all"}, b1))
 	out = append(out, scenario(params{"concurrent-asks", 2, 10, "all"}, b0))
